@@ -10,6 +10,7 @@ import (
 	rtypes "github.com/rigochain/rigo-go/types"
 	tmtypes "github.com/tendermint/tendermint/types"
 	"verifharness/internal/appdrv"
+	"verifharness/internal/evmgen"
 )
 
 func (s *Sim) govPrice() *uint256.Int { return s.N.App.VerifGov().VerifActiveParams().GasPrice() }
@@ -88,7 +89,11 @@ func (s *Sim) GenTx() []byte {
 	r := s.R
 	k := s.fundedKey()
 	var spec *appdrv.TxSpec
-	switch r.Pick(22, 10, 10, 12, 8, 6, 8, 10) {
+	wEvm := 0
+	if s.Opt.WithEVM {
+		wEvm = 18
+	}
+	switch r.Pick(22, 10, 10, 12, 8, 6, 8, 10, wEvm) {
 	case 0: // transfer
 		var to rtypes.Address
 		switch r.Pick(6, 2, 1) {
@@ -204,6 +209,8 @@ func (s *Sim) GenTx() []byte {
 			choice = int32(r.Range(-1, p.NOpts+1))
 		}
 		spec = s.base(vk, ctrlertypes.TRX_VOTING, rtypes.ZeroAddress(), nil, &ctrlertypes.TrxPayloadVoting{TxHash: p.Hash, Choice: choice})
+	case 8: // contract deployment / call / plain transfer to a contract
+		spec = s.genEvmTx(k)
 	}
 	// mutation stream
 	if r.Chance(s.Opt.InvalidPct) {
@@ -271,6 +278,25 @@ func (s *Sim) After(bz []byte, o appdrv.TxOut) {
 	}
 	hash := tmtypes.Tx(bz).Hash()
 	switch tx.Type {
+	case ctrlertypes.TRX_CONTRACT:
+		if rtypes.IsZeroAddress(tx.To) && len(o.Data) == 20 {
+			prog := s.PendingProg[string(tx.Payload.(*ctrlertypes.TrxPayloadContract).Data)]
+			s.Contracts = append(s.Contracts, ContractRef{Addr: append([]byte(nil), o.Data...), Prog: prog})
+		} else {
+			// a factory call stores the child's address in slot 0
+			for _, c := range s.Contracts {
+				if c.Prog.Name == "factory" && string(c.Addr) == string(tx.To) {
+					st := s.N.App.VerifEVM().VerifStateDB()
+					var a20 [20]byte
+					copy(a20[:], c.Addr)
+					v := st.GetState(a20, [32]byte{})
+					child := append([]byte(nil), v[12:]...)
+					if !rtypes.IsZeroAddress(child) {
+						s.Children = append(s.Children, child)
+					}
+				}
+			}
+		}
 	case ctrlertypes.TRX_STAKING:
 		s.Stakes = append(s.Stakes, StakeRef{Owner: s.keyIdx(tx.From), To: tx.To, Hash: hash})
 	case ctrlertypes.TRX_PROPOSAL:
@@ -283,6 +309,86 @@ func (s *Sim) After(bz []byte, o appdrv.TxOut) {
 			s.Stakes = append(s.Stakes[:i], s.Stakes[i+1:]...)
 		}
 	}
+}
+
+// genEvmTx builds a contract deployment, a contract call or a plain transfer to a contract.
+func (s *Sim) genEvmTx(k *appdrv.Key) *appdrv.TxSpec {
+	r := s.R
+	val := func() *uint256.Int {
+		switch r.Pick(4, 4, 1) {
+		case 0:
+			return uint256.NewInt(0)
+		case 1:
+			return uint256.NewInt(uint64(r.Range(1, 1000)))
+		default:
+			return Rigo(uint64(r.Range(1, 3)))
+		}
+	}
+	target := func() rtypes.Address {
+		switch r.Pick(3, 3, 2, 1, 1) {
+		case 0:
+			return s.Keys[r.Intn(len(s.Keys))].Addr
+		case 1:
+			if len(s.Contracts) > 0 {
+				return s.Contracts[r.Intn(len(s.Contracts))].Addr
+			}
+			return r.Bytes(20)
+		case 2:
+			return r.Bytes(20)
+		case 3:
+			if len(s.Children) > 0 {
+				return s.Children[r.Intn(len(s.Children))]
+			}
+			return r.Bytes(20)
+		default:
+			a := make([]byte, 20)
+			a[19] = byte(r.Range(1, 9)) // precompile
+			return a
+		}
+	}
+	if len(s.Contracts) == 0 || r.Chance(30) {
+		var code []byte
+		if r.Chance(12) {
+			code = evmgen.Garbage(r)
+		} else {
+			p := evmgen.Pick(r)
+			code = p.Init
+			s.PendingProg[string(code)] = p
+		}
+		v := uint256.NewInt(0)
+		if r.Chance(25) {
+			v = val()
+		}
+		return s.base(k, ctrlertypes.TRX_CONTRACT, rtypes.ZeroAddress(), v, &ctrlertypes.TrxPayloadContract{Data: code})
+	}
+	if r.Chance(25) && (len(s.Children) > 0 || len(s.Contracts) > 0) {
+		// plain transfer to a contract address (top-level deployed: routed through the EVM; inner-created: not)
+		var to rtypes.Address
+		if len(s.Children) > 0 && r.Chance(50) {
+			to = s.Children[r.Intn(len(s.Children))]
+		} else {
+			to = s.Contracts[r.Intn(len(s.Contracts))].Addr
+		}
+		spec := s.base(k, ctrlertypes.TRX_TRANSFER, to, val(), nil)
+		spec.Gas = 200000
+		return spec
+	}
+	c := s.Contracts[r.Intn(len(s.Contracts))]
+	var data []byte
+	if c.Prog.NeedsArg || (c.Prog.Name == "destructor" && r.Chance(60)) {
+		data = evmgen.Word(target())
+	}
+	if r.Chance(5) {
+		data = r.Bytes(r.Range(1, 40))
+	}
+	spec := s.base(k, ctrlertypes.TRX_CONTRACT, c.Addr, val(), &ctrlertypes.TrxPayloadContract{Data: data})
+	if c.Prog.Name == "gasburner" {
+		spec.Gas = 100000
+	}
+	if r.Chance(6) {
+		spec.Gas = uint64(r.Range(21000, 60000))
+	}
+	return spec
 }
 
 var _ = json.Marshal
